@@ -9,5 +9,5 @@ go build -o ../bin/verifcheck .
 # shared between /repo and the scratch copies of the thorough tier). Best effort: a failure here does not fail the set-up,
 # the first check then pays for it. Evidence of this run goes to a scratch directory that is removed again.
 warm=$(mktemp -d /var/tmp/verif-warm-XXXXXX)
-../bin/verifcheck -p C35 -tier quick -verif "$warm" >/dev/null 2>&1 || true
+timeout 420 ../bin/verifcheck -p C35 -tier quick -verif "$warm" >/dev/null 2>&1 || true
 rm -rf "$warm"
